@@ -225,14 +225,27 @@ func runProperty(repo, verif, prop string, cfg *PropCfg, tier string, overlay ma
 		for _, o := range fc.obls {
 			jobs = append(jobs, &job{fc: fc, o: o, script: fc.Query(o, true)})
 		}
-		// vacuity: the context with every fact must not refute each obligation's path
+		// vacuity: (a) the requires alone must be satisfiable, (b) not every return site may be unreachable, (c) every loop
+		// header must be reachable together with its assumed invariants. A single unreachable return site is only noted
+		// (run-time panics are assumed away, which can make a defensive branch dead).
 		seenPath := map[string]bool{}
 		for _, o := range fc.obls {
 			if o.Kind == "lemma" || seenPath[o.Path] {
 				continue
 			}
+			if !(o.Kind == "ensures" || strings.HasPrefix(o.Kind, "invariant-preserved")) {
+				continue
+			}
 			seenPath[o.Path] = true
-			co := &Obl{Func: o.Func, Kind: "cover", Label: o.Kind + ":" + o.Label, Site: o.Site, NFacts: o.NFacts, Path: o.Path, Goal: "true"}
+			kind := "cover-return"
+			if o.Kind != "ensures" {
+				kind = "cover-loop"
+			}
+			co := &Obl{Func: o.Func, Kind: kind, Label: o.Kind + ":" + o.Label, Site: o.Site, NFacts: o.NFacts, Path: o.Path, Goal: "true"}
+			covers = append(covers, &job{fc: fc, o: co, script: fc.Query(co, false)})
+		}
+		if fc.nPreFacts > 0 {
+			co := &Obl{Func: fc.key, Kind: "cover-requires", Label: "requires", NFacts: fc.nPreFacts, Path: "true", Goal: "true"}
 			covers = append(covers, &job{fc: fc, o: co, script: fc.Query(co, false)})
 		}
 	}
@@ -289,11 +302,26 @@ func runProperty(repo, verif, prop string, cfg *PropCfg, tier string, overlay ma
 		}
 		res.Obls = append(res.Obls, r)
 	}
+	retTotal, retDead := map[string]int{}, map[string]int{}
 	for _, j := range covers {
 		res.Covers++
 		res.SolverSecs += j.v.Secs
-		if j.v.Class == "unsat" {
-			res.Vacuous = append(res.Vacuous, fmt.Sprintf("%s path of %s@%s is unreachable under the assumed facts (contradictory requires/invariant/axiom?)", j.o.Func, j.o.Label, j.o.Site))
+		switch j.o.Kind {
+		case "cover-return":
+			retTotal[j.o.Func]++
+			if j.v.Class == "unsat" {
+				retDead[j.o.Func]++
+				res.Abstract = append(res.Abstract, fmt.Sprintf("return site %s of %s is unreachable in the model (panics are assumed away)", j.o.Site, j.o.Func))
+			}
+		default:
+			if j.v.Class == "unsat" {
+				res.Vacuous = append(res.Vacuous, fmt.Sprintf("%s: %s %s@%s is unsatisfiable (contradictory requires / invariant / axiom)", j.o.Func, j.o.Kind, j.o.Label, j.o.Site))
+			}
+		}
+	}
+	for f, n := range retTotal {
+		if n > 0 && retDead[f] == n {
+			res.Vacuous = append(res.Vacuous, fmt.Sprintf("%s: every return site is unreachable under the assumed facts", f))
 		}
 	}
 	sort.Strings(res.Abstract)
